@@ -7,5 +7,5 @@ for f in sorted(glob.glob(os.path.join(os.path.dirname(os.path.abspath(__file__)
     mod = importlib.import_module("props." + os.path.basename(f)[:-3])
     r = mod.SPEC.get("regen")
     if r:
-        r(None)
+        r(Ctx("SETUP", "quick", 1))   # extractors that need scratch space use ctx.path(...)
         print("regen", mod.SPEC["id"], "ok")
